@@ -146,6 +146,8 @@ pub enum Init {
     SloadRevert,
     /// self-destructs to SENDER during init
     SelfDestruct,
+    /// SLOAD(0) then returns empty code
+    SloadOk,
 }
 impl Init {
     pub fn code(self) -> Vec<u8> {
@@ -159,6 +161,7 @@ impl Init {
             Init::Write => Asm::new().sstore(0, 1).push_u(0).push_u(0).op(op::MSTORE8).push_u(1).push_u(0).op(op::RETURN).build(),
             Init::SloadRevert => Asm::new().push_u(0).op(op::SLOAD).op(op::POP).push_u(0).push_u(0).op(op::REVERT).build(),
             Init::SelfDestruct => Asm::new().push_addr(SENDER).op(op::SELFDESTRUCT).build(),
+            Init::SloadOk => Asm::new().push_u(0).op(op::SLOAD).op(op::POP).op(op::STOP).build(),
         }
     }
 }
